@@ -450,6 +450,30 @@ def catalogue():
     add("coulomb_gaussian_p", ["coulomb_gaussian_p"], coargs, lambda a: coulomb_gaussian_p(a["r"], 0.7), family="coulomb")
     add("coulomb_potential", ["coulomb_potential"], coargs,
         lambda a: coulomb_potential(a["points"], a["cs"], a["co"], a["al"], centers_p=a["cp"], coeffs_p=a["cop"], alphas_p=a["alp"]), same=[("co", "al")], family="coulomb")
+    # non-default options of the same calls (added after seeded change C19-G: coefficients rescaled in place only for
+    # normalized=False): every boolean / enumerated option of the catalogued operations at its other value
+    add("coulomb_potential[unnormalised]", ["coulomb_potential"], coargs,
+        lambda a: [coulomb_potential(a["points"], a["cs"], a["co"], a["al"], normalized=False),
+                   coulomb_potential(a["points"], a["cs"], a["co"], a["al"], centers_p=a["cp"], coeffs_p=a["cop"], alphas_p=a["alp"], normalized=False)],
+        same=[("co", "al")], family="coulomb")
+    add("coulomb_gaussian_p[unnormalised]", ["coulomb_gaussian_p"], coargs, lambda a: coulomb_gaussian_p(a["r"], 0.7, normalized=False), family="coulomb")
+    add("AtomGrid.get_shell_grid[r_sq=False]", ["AtomGrid.get_shell_grid"], aargs, lambda a: [a["grid"].get_shell_grid(1, r_sq=False), a["grid"].get_shell_grid(0, r_sq=True)], family="atom")
+    add("Grid.moments[no order list]", ["Grid.moments"], gargs, lambda a: Grid(a["points"], a["weights"]).moments(2, a["centers"], a["f"], "pure-radial", False), family="grid")
+    add("UniformGrid.from_molecule[rotate=False]", ["UniformGrid.from_molecule"], cargs,
+        lambda a: UniformGrid.from_molecule(a["atnums"], a["atcoords"], spacing=0.8, extension=1.5, rotate=False, weight="Rectangle"), family="cubic")
+    add("solve_poisson_bvp[options]", ["solve_poisson_bvp"], poargs,
+        lambda a: solve_poisson_bvp(a["grid"], a["f"], a["tf"], boundary=float(np.sqrt(4 * np.pi)), include_origin=False, remove_large_pts=50.0, ode_params=a["bvp_params"]),
+        post=lambda r, a: r(a["q"]), slow=True)
+    add("solve_poisson_robust[split2=False]", ["solve_poisson_robust"], poargs,
+        lambda a: solve_poisson_robust(a["grid"], a["f"], a["tf"], a["atnums"], a["atcoords"], split2=False, ode_params=a["bvp_params"]),
+        post=lambda r, a: r(a["q"]), slow=True)
+    for tname, mk in (("none", lambda: None), ("inv-becke", lambda: rt.InverseRTransform(rt.BeckeRTransform(0.0, 1.3)))):
+        add(f"solve_ode_ivp[{tname}, no_derivatives]", ["solve_ode_ivp"], ode_args,
+            lambda a, mk=mk: solve_ode_ivp(a["x_span"], a["fx"], a["coeffs"], a["y0_arr"], transform=mk(), no_derivatives=True, method="Radau"),
+            post=lambda r, a: r(np.array([0.3, 0.9, 1.4])), callbacks=[("fx", "rhs")])
+        add(f"solve_ode_bvp[{tname}, derivatives]", ["solve_ode_bvp"], ode_args,
+            lambda a, mk=mk: solve_ode_bvp(a["x"], a["fx"], a["coeff_arr"], a["bd"], transform=mk(), initial_guess_y=a["guess"], tol=1e-6, no_derivatives=False),
+            post=lambda r, a: r(np.array([0.3, 0.9, 1.4])), callbacks=[("fx", "rhs")])
 
     # ---- harmonics (family)
     def hargs():
